@@ -14,11 +14,12 @@ Decided (structural necessary conditions):
              and advances the previous objective; the returned object is that model
   TR-cover   the returned trace prefix covers the last index written (start + one per epoch)
   SMP-cnt    (E4a) every sampler returns subscripts, values and weights with equal symbolic row counts
+  SMP-wt     stratified(): weight of a drawn nonzero = data.nnz / drawn nonzeros, of a drawn zero = (prod(shape) - data.nnz) / drawn zeros
   SMP-lin    linear indices computed by hand in a sampler (subs @ cumprod(..shape..)) use tt_sub2ind's numbering: strides
              cumprod((1,) + shape[:-1]); no such site on the reviewed tree (fixtures keep the rule alive)
   SMP-val    values reported for drawn zeros are zeros, values of drawn nonzeros are gathered with
              the same index as their subscripts
-Not decided: weight totals, "drawn zeros are true zeros" for the semi-stratified sampler (by design
+Not decided: weight totals of the other samplers, "drawn zeros are true zeros" for the semi-stratified sampler (by design
 it samples unconfirmed zeros), objective comparisons between runs.
 """
 from __future__ import annotations
@@ -654,6 +655,47 @@ def smp_cnt(prog: Program, res: Result) -> None:
                     f"the zero block of the values is {ast.unparse(d) if d is not None else 'undefined'}")
 
 
+def smp_weights(prog: Program, res: Result) -> None:
+    """stratified(): each drawn nonzero stands for (stored nonzeros / drawn nonzeros) entries and each drawn zero for
+    (all entries - stored nonzeros) / drawn zeros: the weights total the entries they stand for.  Decided as terms over the data's own
+    counts (data.nnz, prod(data.shape)) and the two requested sample counts."""
+    import sympy as sp
+    from . import alg_common as A
+    fi = prog.func("gcp.samplers.stratified")
+    ps = fi.params()
+    if len(ps) < 4:
+        res.undecided("SMP-wt", fi.short, "weights of a stratified sample total the entries they stand for", prog.loc(fi), "signature changed")
+        return
+    data, n_nz, n_z = ps[0], ps[2], ps[3]
+    NNZ, TOT, a, b = sp.Symbol("NNZ", positive=True), sp.Symbol("TOT", positive=True), sp.Symbol("a", positive=True), sp.Symbol("b", positive=True)
+    roles = {f"{data}.nnz": NNZ, f"np.prod({data}.shape)": TOT, f"prod({data}.shape)": TOT, f"math.prod({data}.shape)": TOT, n_nz: a, n_z: b}
+    # the two weight vectors: the operands of the concatenation that is returned last
+    wnames = None
+    for r in ast.walk(fi.node):
+        if isinstance(r, ast.Return) and isinstance(r.value, ast.Tuple) and len(r.value.elts) == 3:
+            w = fi.resolve(r.value.elts[2])
+            if isinstance(w, ast.Call) and (dotted(w.func) or "").split(".")[-1] in ("concatenate", "hstack") and w.args \
+                    and isinstance(w.args[0], (ast.Tuple, ast.List)) and len(w.args[0].elts) == 2 and all(isinstance(x, ast.Name) for x in w.args[0].elts):
+                wnames = [x.id for x in w.args[0].elts]
+    if wnames is None:
+        res.undecided("SMP-wt", fi.short, "weights of a stratified sample total the entries they stand for", prog.loc(fi), "weight vectors not identified")
+        return
+    for nm, want, what in ((wnames[0], NNZ / a, "drawn nonzero"), (wnames[1], (TOT - NNZ) / b, "drawn zero")):
+        desc = f"every {what} carries weight {want} (entries it stands for / number drawn)"
+        scal = [n for n in ast.walk(fi.node) if isinstance(n, ast.AugAssign) and isinstance(n.op, ast.Mult) and isinstance(n.target, ast.Name) and n.target.id == nm]
+        if len(scal) != 1:
+            res.undecided("SMP-wt", fi.short, desc, prog.loc(fi), f"{len(scal)} scalings of `{nm}`")
+            continue
+        ok, how = A.formula_equals(fi.resolve(scal[0].value), roles, want)
+        if ok is True:
+            res.ok("SMP-wt", fi.short, desc, prog.loc(fi, scal[0]), how)
+        elif ok is False:
+            res.bad("SMP-wt", fi.short, desc, prog.loc(fi, scal[0]), how + ": the weights no longer total the entries of the stratum, so every "
+                    "function / gradient estimate built from the sample is biased")
+        else:
+            res.undecided("SMP-wt", fi.short, desc, prog.loc(fi, scal[0]), how)
+
+
 def smp_lin(prog: Program, res: Result) -> None:
     """Hand-written linear indices in the samplers (subs @ strides instead of tt_sub2ind): the rejection test of the zero sampler compares
     them with tt_sub2ind indices of the nonzeros, so the strides must be the first-subscript-fastest ones, cumprod((1,) + shape[:-1]).
@@ -694,3 +736,4 @@ def check(prog: Program, res: Result, tier: str) -> None:
     tr_cover(prog, res)
     smp_cnt(prog, res)
     smp_lin(prog, res)
+    smp_weights(prog, res)
